@@ -170,7 +170,15 @@ def rule_record_coherence(eng, rep, A, rule="C03-3.record-coherence-at-stores"):
                 veh = c.mapping.get(ie.id, ie) if isinstance(ie, ast.Name) and ie.id in c.mapping else ie
             k = vfg.key_of(veh)
             is_nx = k in nxw.plain or any(s in nxw.plain for (s, kind, info) in vfg.preds.get(k, []) if kind == "copy")
-            if not is_nx:
+            captured = None
+            if isinstance(earg, ast.Name) and earg.id in es.extra_names.get(un, []) and un in cfg.defs_reaching(earg, earg.id):
+                # the number was captured in the statement that made the evaluation and parked with its result
+                cx = es.extra_exprs[es.extra_names[un].index(earg.id)]
+                ck = vfg.key_of(cx)
+                captured = ck in nxw.plain or any(s in nxw.plain for (s, kind, info) in vfg.preds.get(ck, []) if kind == "copy")
+            if captured:
+                pass          # read of the point counter right after its own evaluation: no other evaluation can lie between
+            elif not is_nx:
                 problems.append(("eval_num", "evaluation number `%s` is not a read of the point counter" % ekey(earg)))
             else:
                 others = [e2.node for e2 in by_fn.get(fi.fid, []) if e2.node != es.node] + [es.node]
@@ -374,7 +382,11 @@ def _same_point(eng, cfg, c, xarg, es):
                 return False
             if es.mode == "direct":
                 return set(cfg.defs_reaching(xarg, xarg.id)) == set(cfg.defs_reaching(xe, xe.id))
-            return _def_text(cfg, xarg) == _def_text(cfg, xe)
+            if _def_text(cfg, xarg) == _def_text(cfg, xe):
+                return True
+            # parked results: the point is recomputed from the loop variable; compare with the loop variables renamed (a drain loop uses its own)
+            pa, pe = _def_text_loopvar(eng, cfg, xarg), _def_text_loopvar(eng, cfg, xe)
+            return pa is not None and pa == pe
         if isinstance(xe, ast.Name):
             # a recomputation is accepted only if it is textually the defining expression of the evaluated point
             return ekey(xarg) == _def_text(cfg, xe)
@@ -394,6 +406,31 @@ def _same_point(eng, cfg, c, xarg, es):
                 return True
             return False
     return None
+
+
+def _def_text_loopvar(eng, cfg, name_node):
+    """text of the defining expression of a name (temporaries looked through) with the variable of the innermost enclosing `for` replaced by a placeholder"""
+    import re
+    from .common import expand_locals
+    e = _def_expr(cfg, name_node)
+    if e is None:
+        return None
+    defs = cfg.defs_reaching(name_node, name_node.id)
+    st = cfg.ast_of(defs[0])
+    e = expand_locals(cfg, st, e)
+    n = defs[0]
+    loops = [(h, lst) for (h, kind, lst) in cfg.loops if kind == "for" and n in cfg.loop_nodes(h)]
+    # (a branch that returns is not in the natural loop: fall back to lexical nesting)
+    if not loops:
+        loops = [(h, lst) for (h, kind, lst) in cfg.loops if kind == "for" and any(x is st for x in ast.walk(lst))]
+    else:
+        loops += [(h, lst) for (h, kind, lst) in cfg.loops if kind == "for" and any(x is st for x in ast.walk(lst)) and (h, lst) not in loops]
+    if not loops:
+        return ekey(e)
+    h, lst = min(loops, key=lambda hl: len(list(ast.walk(hl[1]))))
+    if not isinstance(lst.target, ast.Name):
+        return ekey(e)
+    return re.sub(r"\b%s\b" % re.escape(lst.target.id), "LOOPVAR", ekey(e))
 
 
 def _def_expr(cfg, name_node):
